@@ -428,7 +428,7 @@ impl Deserialize for AuxiliaryData {
                     })()
                         .map_err(|e| e.annotate("native_scripts"))?;
                     match len {
-                        cbor_event::Len::Len(_) => (),
+                        cbor_event::Len::Len(_) => read_len.finish()?,
                         cbor_event::Len::Indefinite => match raw.special()? {
                             CBORSpecial::Break => (),
                             _ => return Err(DeserializeFailure::EndingBreakMissing.into()),
